@@ -105,6 +105,8 @@ def check(ctx) -> None:
     ctx.rule("C10.member", "TYPE-MEMBER: no tuple-in-dict[int,...] membership; covered tests over distance maps use .items()", floor=4)
     ctx.rule("C10.siblings", "TABLE-AGREE: compute_fitness / compute_is_covered of one fitness function run the same execution helper, pass identical arguments to paired metric functions and read the same trace / subject fields", floor=8)
     ctx.rule("C10.zero", "every comparison of a branch-distance value decides `covered` by equality with 0.0 (==, math.isclose(x, 0.0) or (p, 0.0) in items())", floor=5)
+    ctx.rule("C10.zero-iff", "ABSINT: compute_branch_distance_fitness == 0 <=> compute_branch_distance_fitness_is_covered, over representative traces and exclusion sets", floor=20)
+    _zero_iff(ctx, repo)
     ctx.rule("C10.div", "every division in the metric functions has a denominator that is a non-zero constant, `c + x` with c > 0 and x guarded non-negative, or a name tested == 0 on the dominating edge", floor=3)
     ctx.rule("C10.range", "GUARD-DOM: every write of a computed value into a fitness / coverage cache is dominated by the range assertion on that value; normalise rejects negatives and maps inf to 1.0", floor=4)
 
@@ -323,3 +325,39 @@ def _safe_denominator(fn, binop):
 
 def _contains(root, node):
     return any(x is node for x in ast.walk(root))
+
+
+def _zero_iff(ctx, repo) -> None:
+    import itertools
+
+    from sa.engine import peval
+
+    FMM = "pynguin.ga.fitness_metrics"
+    fit = repo.func(FMM, "compute_branch_distance_fitness")
+    cov = repo.func(FMM, "compute_branch_distance_fitness_is_covered")
+    ctx.analysed(fit)
+    ctx.analysed(cov)
+    fmod = repo.module(FMM)
+    sp = peval.Obj("SubjectProperties", fields={"existing_predicates": {0: "m0", 1: "m1"}, "branch_less_code_objects": [7]})
+    traces = {
+        "everything covered": ({7}, {0: 3, 1: 2}, {0: 0.0, 1: 0.0}, {0: 0.0, 1: 0.0}),
+        "predicate 1 never executed": ({7}, {0: 3}, {0: 0.0}, {0: 0.0}),
+        "predicate 1 executed once, false only": ({7}, {0: 3, 1: 1}, {0: 0.0, 1: 2.0}, {0: 0.0, 1: 0.0}),
+        "predicate 1 executed twice, tiny true distance": ({7}, {0: 3, 1: 2}, {0: 0.0, 1: 5e-17}, {0: 0.0, 1: 0.0}),
+        "branch-less code object missing": (set(), {0: 1, 1: 1}, {0: 0.0, 1: 0.0}, {0: 0.0, 1: 0.0}),
+        "nothing executed": (set(), {}, {}, {}),
+    }
+    excl = [(None, None, None), (None, {1}, {1}), ({7}, None, None), (None, {1}, None), ({7}, {0, 1}, {0, 1}), (None, None, {1})]
+    for (tname, (eco, ep, td, fd)), (xc, xt, xf) in itertools.product(traces.items(), excl):
+        trace = peval.Obj("trace", fields={"executed_code_objects": set(eco), "executed_predicates": dict(ep), "true_distances": dict(td), "false_distances": dict(fd)})
+        tag = f"[{tname}; exclude code={sorted(xc) if xc else None} true={sorted(xt) if xt else None} false={sorted(xf) if xf else None}]"
+        try:
+            f = peval.Interp(resolver=peval.repo_resolver(repo)).run_function(fit, [trace, sp, xc, xt, xf], {}, fmod)
+            c = peval.Interp(resolver=peval.repo_resolver(repo)).run_function(cov, [trace, sp, xc, xt, xf], {}, fmod)
+        except peval.Undecided as exc:
+            ctx.undecide("C10.zero-iff", cov, f"{tag}: {exc}")
+            continue
+        except peval.Raises as exc:
+            ctx.fail("C10.zero-iff", cov, f"{tag}: raises {exc.name} ({exc.detail[:50]})", stmt=tag)
+            continue
+        ctx.check("C10.zero-iff", cov, (f == 0.0) == bool(c), f"{tag}: fitness = {f!r} but the covered verdict is {c!r}: the search treats a chromosome with fitness zero as not covered (or the other way round)", what=f"{tag}: fitness {f!r}, covered {c!r}", stmt=tag)
